@@ -165,9 +165,19 @@ fn big_still(rng: &mut Rng, k: usize) -> Still {
     let period = if k % 2 == 0 { 32768 - (k / 2) % 3 } else { 20000 + rng.usize(0, 12000) };
     let pat = rng.bytes(period);
     img.pixels = (0..total).map(|i| pat[i % period] ^ ((i / period) as u8 & 1)).collect();
+    if k % 2 == 0 {
+        // make the SCANLINE STREAM (filter byte 0 + 4095 gray bytes per row) periodic with period 32768 = 8 rows, so that the
+        // own emitter produces nothing but matches at the maximum legal distance 32768 after the first 8 rows
+        img.color = 0;
+        img.depth = 8;
+        img.w = 4095;
+        img.h = 100 + k as u32;
+        let rows8: Vec<Vec<u8>> = (0..8).map(|_| rng.bytes(4095)).collect();
+        img.pixels = (0..img.h as usize).flat_map(|r| rows8[r % 8].clone()).collect();
+    }
     // filter None so that the scanline stream itself has the period: the own emitter then produces matches at exactly
     // `period` (the maximum legal distance 32768 for k % 4 == 0) across every compaction of the inflate window
-    let deflater = if k % 2 == 0 { Deflater::FixedDist(period) } else { Deflater::Level(6 + (k as u32 % 4)) };
+    let deflater = if k % 2 == 0 { Deflater::FixedDist(32768) } else { Deflater::Level(6 + (k as u32 % 4)) };
     Still { img, interlace: k % 2 == 1, filters: if k % 2 == 0 { Filters::Uniform(0) } else { Filters::Random }, deflater, split: if k % 4 == 0 { Split::One } else { Split::Fixed(40000) } }
 }
 
